@@ -107,6 +107,16 @@ def route_case(ctx, case):
                 'end': 'silent'}
     if origin == 'reaction_status_json':
         status = {'reply': 'this is not json'}
+    reset = bool(case.get('reset')) and origin in ('listener',
+                                                   'early_listener')
+    if reset:
+        # the peer sends a burst and is gone (RST): replies to the burst are
+        # still queued when the listener faults, and writing to the dead
+        # peer would fail - the clean-up after the handlers must not depend
+        # on flushing them
+        play = {'bursts': [[('keep_alive', {'keep_alive_id': k})
+                            for k in (11, 13, 14)]], 'mode': 'all',
+                'end': 'eof'}
     spec1 = {'version': version, 'login': login, 'play': play,
              'status': status}
     clean = {'version': version, 'login': [('success',)],
@@ -116,6 +126,8 @@ def route_case(ctx, case):
 
     def factory(addr):
         s = servers.Server(dict(spec1 if not srvs else clean))
+        if reset and not srvs:
+            s.reset_on_close = True
         srvs.append(s)
         return s
     world = vnet.World(default=factory)
@@ -408,7 +420,8 @@ def case_strategy():
         'final_new': st.sampled_from(sorted(CLASSES)),
         'compress': st.sampled_from([None, None, 0, 256]),
         'version': st.sampled_from([757, 757, 340, 47]),
-        'decorator': st.booleans()})
+        'decorator': st.booleans(),
+        'reset': st.sampled_from([False, False, True])})
 
 
 def fix_case(c):
@@ -468,6 +481,11 @@ def t_origins(ctx):
                         'origin': origin, 'exc': 'B', 'chain': chain,
                         'final': final, 'final_new': 'EOFError',
                         'compress': comp, 'version': 757}))
+                if origin in ('listener', 'early_listener'):
+                    route_case(ctx, fix_case({
+                        'origin': origin, 'exc': 'B', 'chain': chain,
+                        'final': final, 'final_new': 'EOFError',
+                        'compress': None, 'version': 757, 'reset': True}))
     ctx.exhaustive_done('9 origins x 4 finals x 5 chains x 2 compression '
                         'modes')
 
